@@ -10,6 +10,12 @@ package c14
 //	       (mode "direct": any t, also equal and decreasing; mode "abci": the whole
 //	       application BeginBlock/EndBlock/Commit with header time t)
 //	add    keeper.AddEpochInfo under a context with time t / height h
+//	init   module (re-)initialisation under a context with time t / height h, at ANY point of the case — on the empty
+//	       store (chain start) or on a live store with running epochs:
+//	       via "fn"      epochs.InitGenesis(ctx, keeper, genesis state)                    (its error is observed)
+//	       via "module"  the registered AppModule's InitGenesis(ctx, cdc, JSON)            (discards the error)
+//	       via "migrate" ModuleManager.RunMigrations with a version map WITHOUT x/epochs — what an upgrade handler
+//	                     does; the SDK then calls AppModule.InitGenesis with the module's DefaultGenesis
 //
 // Observables after each op: success, every EpochInfo in store iteration order and
 // the recorders' call log (recorder, kind, identifier, epoch number).
@@ -24,6 +30,7 @@ import (
 	"github.com/NibiruChain/collections"
 	tmproto "github.com/cometbft/cometbft/proto/tendermint/types"
 	sdk "github.com/cosmos/cosmos-sdk/types"
+	"github.com/cosmos/cosmos-sdk/types/module"
 
 	. "verifharness/hx"
 
@@ -34,7 +41,7 @@ import (
 )
 
 type c14Op struct {
-	Op string `json:"op"` // block | add
+	Op string `json:"op"` // block | add | init
 	T  int64  `json:"t"`  // context block time, ns since Unix epoch
 	H  int64  `json:"h"`  // context block height (mode abci: informative, the chain decides)
 	// add only
@@ -45,6 +52,9 @@ type c14Op struct {
 	CurStart *int64 `json:"cur_start"` // nil = zero time
 	Height   int64  `json:"height,omitempty"`
 	Started  bool   `json:"started,omitempty"`
+	// init only
+	Via string  `json:"via,omitempty"` // fn | module | migrate
+	Gen []c14Op `json:"gen,omitempty"` // the genesis state's epochs, in order (via migrate: the module's DefaultGenesis is used)
 }
 
 // c14Fail makes the failing receiver panic when it is handed this call, the first Times times.
@@ -87,6 +97,7 @@ type c14OpObs struct {
 	H     int64     `json:"h"`
 	Infos []c14Info `json:"infos"`
 	Log   []c14Call `json:"log"`
+	Gen   []c14Op   `json:"gen,omitempty"` // init via migrate: the genesis state the module was initialised with
 }
 
 type c14Obs struct {
@@ -165,6 +176,43 @@ func infoOfOp(op c14Op) epochstypes.EpochInfo {
 	}
 }
 
+func opOfInfo(e epochstypes.EpochInfo) c14Op {
+	op := c14Op{Op: "add", Ident: e.Identifier, Dur: int64(e.Duration), Cur: e.CurrentEpoch, Height: e.CurrentEpochStartHeight,
+		Started: e.EpochCountingStarted}
+	if !e.StartTime.IsZero() {
+		op.Start = p64(e.StartTime.UnixNano())
+	}
+	if !e.CurrentEpochStartTime.IsZero() {
+		op.CurStart = p64(e.CurrentEpochStartTime.UnixNano())
+	}
+	return op
+}
+
+// runInit executes one init op; ok = what the caller of that entry point gets to see.
+func runInit(a *app.NibiruApp, ctx sdk.Context, op c14Op, o *c14OpObs) {
+	gs := epochstypes.GenesisState{}
+	for _, g := range op.Gen {
+		gs.Epochs = append(gs.Epochs, infoOfOp(g))
+	}
+	switch op.Via {
+	case "fn":
+		o.OK = epochs.InitGenesis(ctx, *a.EpochsKeeper, gs) == nil
+	case "module":
+		cdc := app.MakeEncodingConfig().Codec
+		mod := a.ModuleManager.Modules[epochstypes.ModuleName].(module.HasGenesis)
+		mod.InitGenesis(ctx, cdc, cdc.MustMarshalJSON(&gs))
+		o.OK = true
+	case "migrate":
+		for _, e := range epochstypes.DefaultGenesis().Epochs {
+			o.Gen = append(o.Gen, opOfInfo(e))
+		}
+		fromVM := a.ModuleManager.GetVersionMap()
+		delete(fromVM, epochstypes.ModuleName)
+		_, err := a.ModuleManager.RunMigrations(ctx, a.Configurator(), fromVM)
+		o.OK = err == nil
+	}
+}
+
 type c14World struct {
 	app  *app.NibiruApp
 	ctx  sdk.Context
@@ -210,6 +258,8 @@ func runDirect(t *testing.T, in c14Input) c14Obs {
 			}
 		case "add":
 			o.OK = w.app.EpochsKeeper.AddEpochInfo(octx, infoOfOp(op)) == nil
+		case "init":
+			runInit(w.app, octx, op, &o)
 		}
 		o.Infos = infosOf(w.app, ctx)
 		o.Log = append([]c14Call{}, w.log...)
@@ -252,6 +302,13 @@ func runABCI(t *testing.T, in c14Input) c14Obs {
 			}
 			o.T, o.H = nsOf(c.Header.Time), c.Header.Height
 			o.OK = c.App.EpochsKeeper.AddEpochInfo(c.Ctx(), infoOfOp(op)) == nil
+		case "init":
+			if !c.InBlock {
+				obs.Ops = append(obs.Ops, c14OpObs{Skip: true})
+				continue
+			}
+			o.T, o.H = nsOf(c.Header.Time), c.Header.Height
+			runInit(c.App, c.Ctx(), op, &o)
 		}
 		o.Infos = infosOf(c.App, c.Ctx())
 		o.Log = append([]c14Call{}, log...)
@@ -331,6 +388,44 @@ func genAdd(r *Rng, now int64, malformed bool, used []string) c14Op {
 	return op
 }
 
+// the module's DefaultGenesis, as the generator sees it (identifier, duration) — only used to choose block steps and
+// failing calls; the driver reads the real one
+var c14Default = []c14Op{{Ident: "30 min", Dur: 1800 * nsSec}, {Ident: "day", Dur: 86400 * nsSec},
+	{Ident: "week", Dur: 7 * 86400 * nsSec}, {Ident: "month", Dur: 30 * 86400 * nsSec}}
+
+// genInit makes a module (re-)initialisation at context time now: the genesis state is the default one (via migrate),
+// a replay of the case's opening definitions, or an arbitrary one mixing stored identifiers, new ones, duplicates and
+// invalid definitions, in any order.
+func genInit(r *Rng, now int64, malformed bool, used []string, opening []c14Op) c14Op {
+	op := c14Op{Op: "init", Via: []string{"fn", "module", "migrate"}[r.Pick(3, 4, 4)]}
+	if op.Via == "migrate" {
+		return op
+	}
+	switch {
+	case len(opening) > 0 && r.Chance(1, 3): // the genesis state the chain was started with, again
+		for _, g := range opening {
+			g.Op, g.T, g.H = "add", 0, 0
+			op.Gen = append(op.Gen, g)
+		}
+	default:
+		n := r.Range(1, 4)
+		for i := 0; i < n; i++ {
+			g := genAdd(r, now, malformed && r.Chance(1, 4), used)
+			if len(used) > 0 && r.Chance(1, 2) { // an identifier that is stored (and may be running)
+				g.Ident = used[r.Intn(len(used))]
+			}
+			op.Gen = append(op.Gen, g)
+		}
+		if len(op.Gen) > 1 && r.Chance(1, 6) { // the same identifier twice: GenesisState.Validate refuses the whole state
+			op.Gen[len(op.Gen)-1].Ident = op.Gen[0].Ident
+		}
+	}
+	if r.Chance(1, 8) {
+		op.Gen = nil // empty genesis state
+	}
+	return op
+}
+
 func genC14Case(r *Rng) c14Input {
 	in := c14Input{Mode: "direct"}
 	if r.Chance(1, 8) {
@@ -348,11 +443,35 @@ func genC14Case(r *Rng) c14Input {
 			durs = append(durs, op.Dur)
 		}
 	}
+	noteInit := func(op c14Op) {
+		gen := op.Gen
+		if op.Via == "migrate" {
+			gen = c14Default[:2] // week / month rarely matter for the block steps
+			used = append(used, "week", "month")
+		}
+		for _, g := range gen {
+			noteAdd(g)
+		}
+	}
+	var opening []c14Op
 	nAdd := r.Range(1, 5)
+	// chain start through InitGenesis (direct mode): the opening definitions arrive as ONE genesis state, or as the
+	// module's default genesis via RunMigrations
+	openInit := in.Mode == "direct" && r.Chance(2, 5)
+	if openInit && r.Chance(1, 2) {
+		op := c14Op{Op: "init", Via: "migrate", T: now, H: h}
+		noteInit(op)
+		in.Ops = append(in.Ops, op)
+		nAdd = r.Intn(2)
+	}
 	for i := 0; i < nAdd; i++ {
 		op := genAdd(r, now, malformedCase && r.Chance(1, 3), used)
 		op.T, op.H = now, h
 		noteAdd(op)
+		if openInit {
+			opening = append(opening, op)
+			continue
+		}
 		if in.Mode == "abci" {
 			if op.Ident == "" || op.Dur == 0 || op.Height < 0 { // genesis validation would abort InitChain
 				op.Ident, op.Dur, op.Height = "g"+string(rune('0'+i)), 60*nsSec, 0
@@ -368,9 +487,13 @@ func genC14Case(r *Rng) c14Input {
 			in.Ops = append(in.Ops, op)
 		}
 	}
+	if len(opening) > 0 {
+		in.Ops = append(in.Ops, c14Op{Op: "init", Via: []string{"fn", "module"}[r.Intn(2)], T: now, H: h, Gen: opening})
+	}
 	if in.Mode == "abci" {
 		h = 0
 	}
+	reinit := r.Chance(2, 5) // this case re-initialises the module in the middle of the chain
 	n := r.Range(6, 22)
 	decreasing := in.Mode == "direct" && r.Chance(1, 10)
 	for i := 0; i < n; i++ {
@@ -378,6 +501,15 @@ func genC14Case(r *Rng) c14Input {
 			op := genAdd(r, now, malformedCase && r.Chance(1, 2), used)
 			op.T, op.H = now, h
 			noteAdd(op)
+			in.Ops = append(in.Ops, op)
+			continue
+		}
+		if i > 1 && reinit && r.Chance(1, 5) {
+			// as an upgrade does: in the block that comes next, before its BeginBlocker (direct mode: same time and
+			// height as the following block op when the step drawn below is 0)
+			op := genInit(r, now, malformedCase && r.Chance(1, 2), used, opening)
+			op.T, op.H = now, h
+			noteInit(op)
 			in.Ops = append(in.Ops, op)
 			continue
 		}
@@ -476,6 +608,32 @@ func TestC14(t *testing.T) {
 		{Op: "add", T: t0, H: 1, Ident: "day", Dur: day}, {Op: "add", T: t0, H: 1, Ident: "hour", Dur: 3600 * nsSec},
 		{Op: "block", T: t0, H: 2}, {Op: "block", T: t0 + day, H: 3}, {Op: "block", T: t0 + 2*day, H: 4},
 		{Op: "block", T: t0 + 2*day + 1, H: 5}, {Op: "block", T: t0 + 2*day + 2, H: 6}, {Op: "block", T: t0 + 3*day + 2, H: 7},
+	}})
+	// module re-initialisation in the middle of the chain.  (1) the chain starts with the module's default genesis, runs
+	// for a few days, then an upgrade's RunMigrations (version map without x/epochs) re-runs InitGenesis with the default
+	// genesis in the block whose BeginBlocker follows; (2) InitGenesis with a genesis state that brings a new identifier
+	// first and stored ones after it, then one that repeats an identifier, through the function and through the module
+	hour := 3600 * nsSec
+	run(c14Input{Mode: "direct", Ops: []c14Op{
+		{Op: "init", Via: "migrate", T: t0, H: 1},
+		{Op: "block", T: t0, H: 1}, {Op: "block", T: t0 + day, H: 2}, {Op: "block", T: t0 + 2*day, H: 3}, {Op: "block", T: t0 + 3*day, H: 4},
+		{Op: "init", Via: "migrate", T: t0 + 3*day + hour, H: 5}, {Op: "block", T: t0 + 3*day + hour, H: 5},
+		{Op: "block", T: t0 + 4*day, H: 6}, {Op: "block", T: t0 + 7*day, H: 7},
+	}})
+	run(c14Input{Mode: "direct", Ops: []c14Op{
+		{Op: "init", Via: "module", T: t0, H: 1, Gen: []c14Op{{Op: "add", Ident: "day", Dur: day}, {Op: "add", Ident: "hour", Dur: hour, Start: p64(t0 + hour)}}},
+		{Op: "block", T: t0, H: 2}, {Op: "block", T: t0 + hour, H: 3}, {Op: "block", T: t0 + 2*hour, H: 4},
+		{Op: "init", Via: "fn", T: t0 + 2*hour, H: 5, Gen: []c14Op{{Op: "add", Ident: "a", Dur: 5}, {Op: "add", Ident: "hour", Dur: 7}, {Op: "add", Ident: "zz", Dur: 9}}},
+		{Op: "block", T: t0 + 2*hour + 5, H: 5}, {Op: "block", T: t0 + 3*hour, H: 6},
+		{Op: "init", Via: "module", T: t0 + 3*hour, H: 7, Gen: []c14Op{{Op: "add", Ident: "b0", Dur: 5}, {Op: "add", Ident: "day", Dur: hour}, {Op: "add", Ident: "b0", Dur: 6}}},
+		{Op: "init", Via: "module", T: t0 + 3*hour, H: 7, Gen: []c14Op{{Op: "add", Ident: "day", Dur: hour}, {Op: "add", Ident: "hour", Dur: 1, Started: true, Cur: 1, Start: p64(t0), CurStart: p64(t0)}}},
+		{Op: "block", T: t0 + day, H: 8}, {Op: "block", T: t0 + day + hour, H: 9},
+	}})
+	run(c14Input{Mode: "abci", Genesis: []c14Op{
+		{Op: "add", Ident: "day", Dur: day, Start: p64(t0)}, {Op: "add", Ident: "30 min", Dur: 1800 * nsSec},
+	}, Ops: []c14Op{
+		{Op: "block", T: t0}, {Op: "block", T: t0 + hour}, {Op: "block", T: t0 + day}, {Op: "init", Via: "migrate"},
+		{Op: "block", T: t0 + day + hour}, {Op: "block", T: t0 + 2*day}, {Op: "block", T: t0 + 9*day},
 	}})
 	rng := NewRng(cfg.Seed)
 	for i := 0; i < cfg.N; i++ {
